@@ -555,7 +555,7 @@ def gen_csv_rules(rnd, n=None):
         cat, sub = rnd.choice(CATS)
         if rnd.random() < .2:
             cat, sub = '', ''
-        tags = [rnd.choice(['recurring', 'Business', 'income', 'needs review', 'Q1'])
+        tags = [rnd.choice(['recurring', 'Business', 'income', 'needs review', 'Q1', 'Spa\u00df', '\u0394\u03b9\u03b1\u03ba\u03bf\u03c0\u03ad\u03c2', 'Stra\u00dfe'])      # (tags are lower-cased, not case-folded - on every path)
                 for _ in range(rnd.choice([0, 0, 1, 2]))]
         if not cat and not tags:
             tags = ['flag']
